@@ -23,7 +23,7 @@ def run(kind, name, patch):
     d = '/dev/shm/mx_%s_%s' % (kind, name)
     rc, out = sh('%s/tools/mkvariant.sh %s %s' % (V, patch, d))
     if rc:
-        return kind, name, {'ERR': (rc, out[:200])}
+        return kind, name, {'ERR': (rc, [out[:200]])}
     res = {}
     try:
         for pid in PIDS:
